@@ -1,5 +1,5 @@
 (* C18 — frames and logical files are isolated from one another. Statements only. *)
-From DV Require Import Model.ApiDispatch Proofs.BuilderP Proofs.DataP Model.Data Proofs.RegP Proofs.FileP Proofs.KeepP Proofs.ContentP.
+From DV Require Import Model.ApiDispatch Proofs.BuilderP Proofs.DataP Model.Data Proofs.RegP Proofs.FileP Proofs.KeepP Proofs.ContentP Proofs.CoverP.
 
 (* each frame's records are its own rows, numbered from 1, independent of every other frame *)
 Theorem C18_frames : forall o rows recs,
@@ -61,7 +61,18 @@ Proof.
   destruct (write_content hc st w st' bs H Hi Hr Hd Hnd) as (groups & Hw & Hall & _). exists groups. split; assumption.
 Qed.
 
+(* how many records a logical file contributes: its header, one per registered set (sets without objects included: their
+   record has an empty body and is dropped by the segmenter), one per no-format call, one per row of every frame. This is the
+   number DLISFile.generate_logical_records announces to the progress bar since the repair of D27 (it used to announce the
+   number of OBJECTS, without the headers, and the progress bar refused some valid files); the harness compares the announced
+   with the actual number on every multi-logical-file case. *)
+Theorem C18_records_per_logical_file : forall st f frames st' recs,
+  lf_records st f frames = OK (st', recs) ->
+  length recs = (1 + length (lf_sids f) + length (l_nofmt f) + fold_right (fun fr n => length (snd fr) + n) 0 frames)%nat.
+Proof. exact lf_records_count. Qed.
+
 Print Assumptions C18_frames.
 Print Assumptions C18_lf_records.
 Print Assumptions C18_logical_files_are_appended.
 Print Assumptions C18_api_groups.
+Print Assumptions C18_records_per_logical_file.
